@@ -159,7 +159,8 @@ VEC_METHODS = {'astype', 'flatten', 'reshape', 'fill', 'count', 'any', 'all', 'c
                'ravel', 'sort', 'min', 'max', 'mean', 'std', 'sum', 'tolist', 'filled', 'rolling', 'isocalendar',
                'tz_localize', 'view', 'item', 'compressed', 'argsort', 'put', 'resize', 'itemset', 'squeeze',
                'nonzero', 'isna', 'isnull', 'notna', 'dropna', 'fillna', 'tz_convert', 'cumsum', 'round', 'ptp',
-               'searchsorted', 'unique', 'apply', 'map', 'astimezone', 'clip', 'argmax', 'argmin', 'repeat'}
+               'searchsorted', 'unique', 'apply', 'map', 'astimezone', 'clip', 'argmax', 'argmin', 'repeat',
+               'diff', 'shift', 'abs', 'where', 'between', 'total_seconds', 'isnull', 'notnull'}
 
 PERIOD_ATTRS = {'year', 'month', 'day', 'hour', 'minute', 'second', 'dayofyear', 'day_of_year', 'dayofweek',
                 'day_of_week', 'weekday', 'quarter', 'week', 'weekofyear', 'days_in_month', 'microsecond',
